@@ -383,9 +383,7 @@ func hm2Check(s string) {
 	if err == nil {
 		vCover("did-url")
 		ds := d.String()
-		if d.Empty() {
-			vCover("did-url-without-did")
-		} else {
+		if !d.Empty() {
 			vAssert(strings.HasPrefix(s, ds), "H19m2.did_is_prefix_of_url: the DID taken from a DID URL is not the leading part of that URL")
 			if len(s) > len(ds) && strings.HasPrefix(s, ds) {
 				c := s[len(ds)]
@@ -402,7 +400,9 @@ func hm2Check(s string) {
 	}
 	if ValidateServiceReference(*u) == nil {
 		vCover("valid-reference")
-		vAssert(err == nil && !d.Empty(), "H19m2.valid_reference_has_did: a reference was accepted that carries no DID")
+		// as ResolveEx does: the DID is taken from the parsed URI's string form (which re-escapes the fragment)
+		d2, err2 := GetDIDFromURL(u.String())
+		vAssert(err2 == nil && !d2.Empty() && strings.HasPrefix(s, d2.String()), "H19m2.valid_reference_has_did: a reference was accepted that carries no DID")
 		vAssert(strings.Contains(s, "/serviceEndpoint?"), "H19m2.valid_reference_has_service_path: a reference was accepted whose path is not /serviceEndpoint followed by a query")
 	} else {
 		vCover("invalid-reference")
